@@ -15,6 +15,24 @@ from vlib.weights import Weights, installed
 INF = float('inf')
 
 
+class RateHandler(PartHandler):
+    """A user's station whose (constant) cycle time comes from an overridden cycle_time getter - the pattern the library's
+    own Buffer uses - instead of the constructor argument."""
+    seconds = 0
+
+    @PartHandler.cycle_time.getter
+    def cycle_time(self):
+        return self.seconds
+
+
+class RateProcessor(PartProcessor):
+    seconds = 0
+
+    @PartProcessor.cycle_time.getter
+    def cycle_time(self):
+        return self.seconds
+
+
 def num(x):
     return INF if x == 'inf' else x
 
@@ -88,6 +106,9 @@ def run_real(case):
                 d = PartHandler(nm, upstream=[up], cycle_time=k[1])
             elif k[0] == 'P':
                 d = PartProcessor(nm, upstream=[up], cycle_time=k[1])
+            elif k[0] in ('HU', 'PU'):
+                d = (RateHandler if k[0] == 'HU' else RateProcessor)(nm, upstream=[up])
+                d.seconds = k[1]
             else:
                 cap = num(k[2])
                 d = Buffer(nm, upstream=[up], minimum_delay=k[1], capacity=None if cap == INF else cap)
